@@ -179,6 +179,139 @@ def parse_block(body):
                 nregs=len(regs))
 
 
+
+# ---- the block loop condition and its per-iteration steps ---------------------
+
+LANES_RE = re.compile(r"<\s*Avx2\s+as\s+Backend\s*>\s*::\s*Lanes\s*::\s*USIZE")
+SIZEOF_RE = re.compile(r"(?:std\s*::\s*)?(?:mem\s*::\s*)?size_of\s*::\s*<\s*__m256i\s*>\s*\(\s*\)")
+LEN_RE = re.compile(r"\b(?:s|seq)\s*\.\s*len\s*\(\s*\)")
+
+
+def _constants(text):
+    """constants of the AVX2 backend: 32 lanes, 32-byte vectors"""
+    text = LANES_RE.sub("32", text)
+    text = SIZEOF_RE.sub("32", text)
+    text = LEN_RE.sub("length", text)
+    return text
+
+
+def _tokens(text):
+    toks = []
+    i = 0
+    while i < len(text):
+        c = text[i]
+        if c.isspace():
+            i += 1
+        elif text.startswith("&&", i) or text.startswith("<=", i) or text.startswith(">=", i):
+            toks.append(text[i:i + 2])
+            i += 2
+        elif c in "+*()<>":
+            toks.append(c)
+            i += 1
+        elif c.isdigit():
+            m = re.match(r"0[xX][0-9a-fA-F_]+|[0-9][0-9_]*", text[i:])
+            toks.append(("num", _num(re.sub(r"(usize|u64|u32)$", "", m.group(0)))))
+            i += len(m.group(0))
+        elif c.isalpha() or c == "_":
+            m = re.match(r"\w+", text[i:])
+            toks.append(("id", m.group(0)))
+            i += len(m.group(0))
+        else:
+            raise ParseError("block loop condition: unexpected character %r in %r" % (c, text.strip()[:120]))
+    return toks
+
+
+def cond_to_coq(cond_text):
+    """`while A <= B && C <= D` over i, src_stride, length with + and * only
+    -> a Coq boolean expression (no subtraction: usize underflow is not modelled)"""
+    text = _constants(re.sub(r"^\s*while\b", "", cond_text))
+    toks = _tokens(text)
+    pos = [0]
+
+    def peek():
+        return toks[pos[0]] if pos[0] < len(toks) else None
+
+    def take():
+        t = peek()
+        pos[0] += 1
+        return t
+
+    def atom():
+        t = take()
+        if isinstance(t, tuple) and t[0] == "num":
+            return str(t[1])
+        if isinstance(t, tuple) and t[0] == "id":
+            if t[1] not in ("i", "src_stride", "length"):
+                raise ParseError("block loop condition mentions unknown variable %s" % t[1])
+            return t[1]
+        if t == "(":
+            e = summ()
+            if take() != ")":
+                raise ParseError("block loop condition: missing )")
+            return e
+        raise ParseError("block loop condition: unexpected token %r" % (t,))
+
+    def prod():
+        e = atom()
+        while peek() == "*":
+            take()
+            e = "(%s * %s)" % (e, atom())
+        return e
+
+    def summ():
+        e = prod()
+        while peek() == "+":
+            take()
+            e = "(%s + %s)" % (e, prod())
+        return e
+
+    def cmp_():
+        a = summ()
+        op = take()
+        b = summ()
+        if op == "<=":
+            return "(%s <=? %s)" % (a, b)
+        if op == "<":
+            return "(%s <? %s)" % (a, b)
+        if op == ">=":
+            return "(%s <=? %s)" % (b, a)
+        if op == ">":
+            return "(%s <? %s)" % (b, a)
+        raise ParseError("block loop condition: comparison expected, got %r" % (op,))
+
+    e = cmp_()
+    while peek() == "&&":
+        take()
+        e = "%s && %s" % (e, cmp_())
+    if peek() is not None:
+        raise ParseError("block loop condition: trailing tokens %r" % (toks[pos[0]:],))
+    return e
+
+
+STEP_OUT_RE = re.compile(r"out\s*=\s*out\s*\.\s*add\s*\(\s*([0-9xXa-fA-F_]+)\s*\*\s*out_stride\s*\)\s*;")
+STEP_SRC_RE = re.compile(r"src\s*=\s*src\s*\.\s*add\s*\(\s*([0-9xXa-fA-F_]+)\s*\)\s*;")
+STEP_I_RE = re.compile(r"i\s*\+=\s*([0-9xXa-fA-F_]+)\s*;")
+
+
+def parse_steps(body):
+    """the three statements that end a block-loop iteration"""
+    m = re.search(r"while\s+i\s*\+", body)
+    e = body.find("out = out.add", m.end()) if m else -1
+    if e < 0:
+        raise ParseError("end of the block loop body (`out = out.add`) not found")
+    close = body.find("}", e)
+    if close < 0:
+        raise ParseError("block loop is not closed")
+    tail = _constants(body[e:close])
+    mo, ms, mi = STEP_OUT_RE.search(tail), STEP_SRC_RE.search(tail), STEP_I_RE.search(tail)
+    if not (mo and ms and mi):
+        raise ParseError("block loop does not end with `out = out.add(K * out_stride); src = src.add(K); i += K;`")
+    rest = STEP_I_RE.sub("", STEP_SRC_RE.sub("", STEP_OUT_RE.sub("", tail)))
+    if rest.strip():
+        raise ParseError("unrecognised statement at the end of the block loop: %r" % rest.strip()[:100])
+    return dict(out=_num(mo.group(1)), src=_num(ms.group(1)), i=_num(mi.group(1)))
+
+
 def parse_dispatch(src):
     m = re.search(r"impl\s*<\s*A\s*:\s*Alphabet\s*>\s*Stripe\s*<[^{]*?for\s+Pipeline\s*<\s*A\s*,\s*Dispatch\s*>\s*\{", src, re.S)
     if not m:
@@ -224,11 +357,18 @@ def render(arms, blk, disp):
     L = []
     L.append("(* GENERATED by translate/stripe_net.py from /repo/lightmotif/src/pli/platform/avx2.rs")
     L.append("   (stripe_avx2) and pli/dispatch.rs -- do not edit; regenerated on every check. *)")
-    L.append("From Coq Require Import List.")
+    L.append("From Coq Require Import List Arith Bool.")
     L.append("From LMStripe Require Import NetModel.")
     L.append("Import ListNotations.")
     L.append("")
-    L.append("(* block loop condition as written (informative only): %s *)" % blk["cond"].replace("*)", "* )"))
+    L.append("(* block loop condition as written: %s *)" % blk["cond"].replace("*)", "* )"))
+    L.append("Definition blk_cond (i src_stride length : nat) : bool :=")
+    L.append("  %s." % blk["cond_coq"])
+    L.append("")
+    L.append("(* end of an iteration: out = out.add(K * out_stride); src = src.add(K); i += K *)")
+    L.append("Definition blk_out_step : nat := %d." % blk["steps"]["out"])
+    L.append("Definition blk_src_step : nat := %d." % blk["steps"]["src"])
+    L.append("Definition blk_i_step : nat := %d." % blk["steps"]["i"])
     L.append("")
     L.append("(* (register, K) for `let mut r = _mm256_loadu_si256(src.add(K * src_stride))`, in order *)")
     L.append("Definition net_loads : list (nat * nat) :=")
@@ -265,6 +405,8 @@ def translate(write=True):
         body = _function_body(src, "stripe_avx2")
         arms, body2 = parse_macro(body)
         blk = parse_block(body2)
+        blk["cond_coq"] = cond_to_coq(blk["cond"])
+        blk["steps"] = parse_steps(body2)
         disp = parse_dispatch(_strip_comments(open(DISPATCH).read()))
         text = render(arms, blk, disp)
     except (ParseError, OSError, ValueError) as e:
@@ -282,8 +424,9 @@ def translate(write=True):
             with open(OUT, "w") as f:
                 f.write(text)
             changed = True
-    notes.append("stripe_net: %d loads, %d unpack ops, %d stores, dispatch %s%s" % (
-        len(blk["loads"]), len(blk["unpacks"]), len(blk["stores"]),
+    notes.append("stripe_net: %d loads, %d unpack ops, %d stores, loop condition %s, steps %s, dispatch %s%s" % (
+        len(blk["loads"]), len(blk["unpacks"]), len(blk["stores"]), blk["cond_coq"],
+        "/".join(str(blk["steps"][k]) for k in ("out", "src", "i")),
         ",".join("%s->%s" % kv for kv in sorted(disp.items())), " (regenerated)" if changed else ""))
     return dict(ok=True, notes=notes, errors=errors)
 
